@@ -190,7 +190,7 @@ def gen_plan(rng, run_index, tier, opts):
             tk["x_dtype"] = "f32"
         if rng.random() < 0.15:
             # other use of the live portfolio between the solve that gave x and the rebuild with the window
-            tk["between"] = rng.choice(["to_json", "to_json", "params_tree", "setup_plain", "to_json_assets", "set_timegrid"])
+            tk["between"] = rng.choice(["to_json", "to_json", "params_tree", "setup_plain", "to_json_assets", "set_timegrid", "cost_samples"])
     # window dates exactly on a grid point: that step belongs to the window (`<=`), as the repository's own test of the feature
     # (tests/test_optimization.py::test_fixing_results, a date on a point of a daily grid) has it
     for tk in ticks:
@@ -408,6 +408,9 @@ class Desk:
             elif what == "set_timegrid":
                 P.set_timegrid(g)
                 self.grid_set = True
+            elif what == "cost_samples":
+                P.create_cost_samples([self.B.prices(self.plan["curves"][(k + 1) % len(self.plan["curves"])])], g)
+                self.grid_set = True
         except Exception as e:
             self.events.append((k, "between-raise:%s@%s" % canon.exc_sig(e)))
 
@@ -475,8 +478,8 @@ class Desk:
             I = np.array(_ordered(W, tk.get("idx_order"), T), dtype=int)       # "indices on timegrid" (docstring of fix_time_window)
         elif tk["form"] == "intlist":
             I = [int(i) for i in _ordered(W, tk.get("idx_order"), T)]
-            if not I:
-                I = np.array([], dtype=int)
+            if not I and k % 2:
+                I = np.array([], dtype=int)      # (even ticks hand over the plain empty list: "nothing realised yet")
         # --- twin: window-less set-up on fresh objects
         tw = specs.Builder(self.w)
         try:
